@@ -31,3 +31,10 @@ VARIANTS = [
       "forward_z1 = forward_y0 + forward_y0 - (forward_z0 + dt * forward_f0 + self.forward_sde.prod(forward_g0, dW))", expect="silent"),
     V("twin-adj-y", RH, "adj_y1 = adj_y1 + 2 * adj_z0", "adj_y1 = adj_y1 + adj_z0 + adj_z0", expect="silent"),
 ]
+
+VARIANTS += [
+    # R10.7 (known finding: forward and backward grids are anchored at opposite ends): other spellings of the same grid are
+    # the same finding, not a new one
+    V("twin-next-t-commuted", CORE + "base_solver.py", "next_t = min(curr_t + step_size, ts[-1])", "next_t = min(step_size + curr_t, ts[-1])", expect="silent"),
+    V("twin-next-t-through-temporary", CORE + "base_solver.py", "next_t = min(curr_t + step_size, ts[-1])", "proposed = curr_t + step_size\n                next_t = min(proposed, ts[-1])", expect="silent"),
+]
